@@ -519,6 +519,52 @@ theorem migrate_pre014_content {s s' : State} (hnd : AMap.NodupKeys s.allow)
       cases s.allow.get? (o, sp) <;> rfl
   · rw [hv] at hv'; cases hv'
 
+/-! ## Semver precedence with pre-release tags -/
+
+/-- semver precedence of a stored version below a *release* `r` (a version without pre-release tag): a smaller
+`major.minor.patch`, or the same triple carrying a pre-release tag. -/
+def precedesRelease (v : Version) (r : Nat × Nat × Nat) : Prop :=
+  v.major < r.1 ∨ (v.major = r.1 ∧ (v.minor < r.2.1 ∨ (v.minor = r.2.1 ∧
+    (v.patch < r.2.2 ∨ (v.patch = r.2.2 ∧ v.pre.isSome = true)))))
+
+/-- … and of a release below a stored version: a strictly smaller triple (a pre-release of the same triple is *below*
+the release, never above it). -/
+def releasePrecedes (r : Nat × Nat × Nat) (v : Version) : Prop :=
+  r.1 < v.major ∨ (r.1 = v.major ∧ (r.2.1 < v.minor ∨ (r.2.1 = v.minor ∧ r.2.2 < v.patch)))
+
+theorem key_lt_relKey_iff (v : Version) (r : Nat × Nat × Nat) :
+    verLt v.key (relKey r) = true ↔ precedesRelease v r := by
+  unfold verLt relKey Version.key precedesRelease
+  simp only [Bool.or_eq_true, Bool.and_eq_true, decide_eq_true_eq, beq_iff_eq]
+  cases v.pre <;> simp <;> omega
+
+theorem relKey_lt_key_iff (v : Version) (r : Nat × Nat × Nat) :
+    verLt (relKey r) v.key = true ↔ releasePrecedes r v := by
+  unfold verLt relKey Version.key releasePrecedes
+  simp only [Bool.or_eq_true, Bool.and_eq_true, decide_eq_true_eq, beq_iff_eq]
+  cases v.pre <;> simp <;> omega
+
+/-- `migrate_ok_iff` in words: accepted exactly when the cw2 record names this contract and the code's release 2.0.0
+does not precede the stored version — so `2.0.0-beta` is accepted (and bumped), `2.0.1-alpha` is refused. -/
+theorem migrate_ok_iff_precedence (s : State) :
+    (∃ s', migrate s = .ok s') ↔ (s.version.name = CONTRACT_NAME ∧ ¬ releasePrecedes CONTRACT_VERSION s.version) := by
+  rw [migrate_ok_iff, ← relKey_lt_key_iff]
+  simp
+
+/-- The spender listing is rebuilt exactly for stored versions that precede the release 0.14.0 in semver order
+(`0.13.99`, `0.14.0-rc.1`, `0.13.0-rc.1` … — not `0.14.0`). -/
+theorem migrate_rebuilds_iff_precedes_014 {s s' : State} (h : migrate s = .ok s') :
+    (precedesRelease s.version (0, 14, 0) → s'.allowSp = rebuild s.allow s.allowSp) ∧
+    (¬ precedesRelease s.version (0, 14, 0) → s'.allowSp = s.allowSp) := by
+  obtain ⟨_, ⟨hv, e⟩ | ⟨hv, e⟩⟩ := migrate_ok h
+  · exact ⟨fun _ => e, fun hn => absurd ((key_lt_relKey_iff _ _).mp hv) hn⟩
+  · refine ⟨fun hp => ?_, fun _ => e⟩
+    rw [(key_lt_relKey_iff _ _).mpr hp] at hv; cases hv
+
+example : precedesRelease ⟨CONTRACT_NAME, 0, 14, 0, some "rc.1"⟩ (0, 14, 0) ∧ ¬ precedesRelease ⟨CONTRACT_NAME, 0, 14, 0, none⟩ (0, 14, 0)
+    ∧ ¬ releasePrecedes CONTRACT_VERSION ⟨CONTRACT_NAME, 2, 0, 0, some "beta"⟩ ∧ releasePrecedes CONTRACT_VERSION ⟨CONTRACT_NAME, 2, 0, 1, some "alpha"⟩ := by
+  simp [precedesRelease, releasePrecedes, CONTRACT_VERSION]
+
 /-! ## Non-vacuity -/
 
 def exInst : InstMsg :=
